@@ -58,6 +58,11 @@ def extra_terms():
                 ("path", T.binop("Eq", T.call("length", p), T.Int(3))), ("path", T.binop("In", p, T.lst(T.Str("a"), T.Str("b")))),
                 ("path", T.binop("Eq", p, T.NULL)), ("path", T.binop("Gt", T.binop("Add", T.path("author", "age"), T.Int(1)), T.Int(2))),
                 ("path", T.unop("Not", T.binop("Eq", p, T.Str("x")))), ("path", T.binop("And", T.binop("Eq", p, T.Str("x")), T.binop("Gt", typed.F("score"), T.Int(0))))]
+    # same-NAMED relationships on different models in one filter (Post.owner -> City, Blog.owner -> Person)
+    o_city, o_pers = T.binop("Eq", T.path("owner", "name"), T.Str("x")), T.binop("Eq", T.path("blog", "owner", "name"), T.Str("y"))
+    o_age = T.binop("Eq", T.path("blog", "owner", "age"), T.Int(3))
+    for a_, b_ in ((o_city, o_pers), (o_pers, o_city), (o_city, o_age), (o_age, o_city)):
+        out += [("path", T.binop("And", a_, b_)), ("path", T.binop("Or", a_, T.unop("Not", b_)))]
     for l in lams:
         out += [("lambda", l), ("lambda", T.unop("Not", l)), ("lambda", T.binop("And", l, T.binop("Gt", typed.F("score"), T.Int(0)))),
                 ("lambda", T.binop("Or", T.binop("Eq", typed.F("title"), T.Str("t")), l)), ("lambda", T.binop("Eq", l, T.Bool(True)))]
@@ -245,6 +250,34 @@ def run_backend(backend, kind, term, root_kind):
             hay = c.string + " " + " ".join(repr(p) for p in c.params.values())
         if any(st[0] == "BoolOp" and (st[2][0] == "Boolean" or st[3][0] == "Boolean") for st in T.subterms(term)):
             return "complete", "constant and/or operand: the ORM may short-circuit, presence not required"
+        if backend == "sa-orm" and root_kind == "relational":
+            # every to-one path outside lambda bodies must show up as <target table>.<column>
+            from checks.C04 import _segments
+            from vt import relational as RLM
+
+            def walk(t):
+                if t[0] == "Attribute":
+                    segs = _segments(t)
+                    tbl, ok = "Post", True
+                    for sname in segs[:-1]:
+                        if sname in RLM.SCHEMA[tbl]["one"]:
+                            tbl = RLM.SCHEMA[tbl]["one"][sname]
+                        else:
+                            ok = False
+                            break
+                    if ok and segs[-1] in RLM.SCHEMA[tbl]["scalars"]:
+                        return ["sa_%s.%s" % (tbl.lower(), segs[-1])]
+                    return []
+                if t[0] == "CollectionLambda":
+                    return []
+                out_ = []
+                for c in (t[2][1:] if t[0] == "Call" else t[1][1:] if t[0] == "List" else t[1:]):
+                    if isinstance(c, tuple) and c and isinstance(c[0], str) and c[0][:1].isupper() and len(c) > 1:
+                        out_ += walk(c)
+                return out_
+            for needle in walk(term):
+                if needle not in hay:
+                    return "incomplete", "path column %s missing: %s" % (needle, hay[:400])
         for f in fields:
             if ('"%s"' % f) not in hay and ("." + f) not in hay:
                 return "incomplete", "field %s missing: %s" % (f, hay[:300])
